@@ -870,6 +870,8 @@ func runC20(c *Ctx) {
 	ruleLimbPairs(c, p, "C20.limbs")
 	ruleAddrStringDelegates(c, p, "C20.addr-string")
 	ruleInstantKept(c, p, "C20.instant")
+	ruleLostReceiverWrite(c, p, "C20.receiver")
+	ruleRangeOnShiftedDay(c, p, "C20.range-shifted")
 	ruleResetKeepsParameters(c, p, "C20.reset-keeps")
 	rulePerElementZone(c, p, "C20.per-element")
 
